@@ -83,6 +83,7 @@ func (u *UnitGen) havocRegion(st *State, r string) {
 
 // UnitGen generates the verification conditions of one unit.
 type UnitGen struct {
+	envCtr   int
 	g        *Gen
 	unit     string
 	fn       *ssa.Function
@@ -139,9 +140,9 @@ type UnitGen struct {
 	typedFresh     []typedVal
 	loadLog        map[string]loadedArr
 	axiomDone      map[string]bool
-	axiomConds     []string // branch conditions selecting the array version being axiomatised
+	axiomConds     []string               // branch conditions selecting the array version being axiomatised
 	termOrigin     map[string]*pathOrigin // guarded_path tracking (by term)
-	mapGuard       map[string]guardRef     // map values whose contents are protected by a mutex
+	mapGuard       map[string]guardRef    // map values whose contents are protected by a mutex
 	assertDone     map[string]bool
 	assertCtr      map[string]int
 }
